@@ -11,7 +11,12 @@ from .common import Partial, Report, Worker, rng, run_shards
 PROP = 'C17'
 DUNDER = {'+': '__add__', '-': '__sub__', '*': '__mul__', '/': '__truediv__', '//': '__floordiv__', '^': '__pow__', 'mod': '__mod__', '=': '__eq__', '!=': '__ne__',
           '<': '__lt__', '<=': '__le__', '>': '__gt__', '>=': '__ge__'}
-VAL = {'Int': '1', 'Str': '"s"', 'Float': '1.5', 'Bool': 'True'}
+VAL = {'Int': '1', 'Str': '"s"', 'Float': '1.5', 'Bool': 'True', '(Int, Int)': '(0, 1)', 'List[Int]': '[1, 2]', 'List[(Int, Int)]': '[(1, 2), (3, 4)]', '(Int, Str)': '(2, "t")',
+       'Int?': 'None', '((Int, Int), Int)': '((5, 6), 7)'}
+# what Python must report as the default (repr) for each default written in the source
+PYREPR = {'1': '1', '"s"': "'s'", '1.5': '1.5', 'True': 'True', '(0, 1)': '(0, 1)', '[1, 2]': '[1, 2]', '[(1, 2), (3, 4)]': '[(1, 2), (3, 4)]', '(2, "t")': "(2, 't')", 'None': 'None',
+          '((5, 6), 7)': '((5, 6), 7)', '"d"': "'d'"}
+PTYPES = ['Int', 'Str', 'Float', 'Bool', 'Int', 'Str', '(Int, Int)', 'List[Int]', 'List[(Int, Int)]', '(Int, Str)', 'Int?', '((Int, Int), Int)']
 
 
 def shape_program(r):
@@ -77,7 +82,7 @@ def shape_program(r):
                 ps = []
                 dfl = False
                 for pi in range(r.choice([0, 1, 2, 3])):
-                    t = r.choice(['Int', 'Str', 'Float', 'Bool'])
+                    t = r.choice(PTYPES)
                     if dfl or r.random() < 0.3:
                         dfl = True
                         ps.append((f'p{pi}', t, VAL[t]))
@@ -86,7 +91,7 @@ def shape_program(r):
                 mname = f'm{ci}{mi}'
                 selfk = r.choice(['self', 'self', 'fin self'])
                 members.append(('method', f"    def {mname}({', '.join([selfk] + [f'{n}: {t}' + (f' := {d}' if d else '') for n, t, d in ps])}) -> Int => {mi}"))
-                methods[mname] = [('self', False, '')] + [(n, d is not None, '') for n, t, d in ps]
+                methods[mname] = [('self', False, '')] + [(n, d is not None, '', PYREPR[d] if d else None) for n, t, d in ps]
             else:
                 op = r.choice(list(DUNDER))
                 if DUNDER[op] in methods:
@@ -105,7 +110,7 @@ def shape_program(r):
             dflt = r.random() < 0.5
             dtxt = ' := "d"' if dflt else ''
             members.append(('method', f"    def __init__(self, {flds[0][0]}: Int, {flds[1][0]}: Str{dtxt}) =>\n        self.{flds[0][0]} := {flds[0][0]}\n        self.{flds[1][0]} := {flds[1][0]}"))
-            ctor = [(flds[0][0], False, ''), (flds[1][0], dflt, '')]
+            ctor = [(flds[0][0], False, ''), (flds[1][0], dflt, '', "'d'" if dflt else None)]
             methods['__init__'] = [('self', False, '')] + ctor
         r.shuffle(members)
         # typed-but-valueless fields must come before use; keep declared order for explicit fields first
@@ -118,7 +123,7 @@ def shape_program(r):
         ps = []
         dfl = False
         for pi in range(r.choice([0, 1, 2, 3, 4])):
-            t = r.choice(['Int', 'Str', 'Float', 'Bool'])
+            t = r.choice(PTYPES)
             if dfl or r.random() < 0.3:
                 dfl = True
                 ps.append((f'q{pi}', t, VAL[t]))
@@ -126,7 +131,7 @@ def shape_program(r):
                 ps.append((f'q{pi}', t, None))
         fname = f'fun{fi}'
         L.append(f"def {fname}({', '.join(f'{n}: {t}' + (f' := {d}' if d else '') for n, t, d in ps)}) -> Int => {fi}")
-        exp['functions'][fname] = [(n, d is not None, '') for n, t, d in ps]
+        exp['functions'][fname] = [(n, d is not None, '', PYREPR[d] if d else None) for n, t, d in ps]
         exp.setdefault('ptypes', {})[fname] = [t for n, t, d in ps]
     if r.random() < 0.3:
         L.append('def varf(first: Int, vararg rest: Int) -> Int => first')
@@ -160,12 +165,18 @@ def compare(exp, rep, part, wit, calls_out):
 
     def sig3(s):
         return [tuple(x[:3]) for x in s] if s is not None else None
+
+    def same(got, want):
+        """names, default markers, variadic markers; and the default VALUE where the expected table states one"""
+        if sig3(got) != [tuple(x[:3]) for x in want]:
+            return False
+        return all(len(w_) < 4 or w_[3] is None or g_[3] == w_[3] for g_, w_ in zip(got, want))
     for fn, es in exp['functions'].items():
         got = rep['functions'].get(fn)
         if got is None:
             bad.append(('function-missing', fn)); continue
-        if sig3(got) != [tuple(x) for x in es]:
-            bad.append(('function-signature', fn, sig3(got), es))
+        if not same(got, es):
+            bad.append(('function-signature' if sig3(got) != [tuple(x[:3]) for x in es] else 'function-default-value', fn, got, es))
     for cn, ec in exp['classes'].items():
         gc = rep['classes'].get(cn)
         if gc is None:
@@ -173,14 +184,14 @@ def compare(exp, rep, part, wit, calls_out):
         if gc['bases'] != ec['bases']:
             bad.append(('bases', cn, gc['bases'], ec['bases']))
         if ec['ctor'] is not None and not gc['abstract']:
-            if sig3(gc['ctor']) != [tuple(x) for x in ec['ctor']]:
+            if gc['ctor'] is None or not same(gc['ctor'], ec['ctor']):
                 bad.append(('constructor-signature', cn, sig3(gc['ctor']), ec['ctor']))
         for mn, ms in ec['methods'].items():
             gm = gc['methods'].get(mn)
             if gm is None:
                 bad.append(('method-missing', f'{cn}.{mn}')); continue
-            if sig3(gm) != [tuple(x) for x in ms]:
-                bad.append(('method-signature', f'{cn}.{mn}', sig3(gm), ms))
+            if not same(gm, ms):
+                bad.append(('method-signature' if sig3(gm) != [tuple(x[:3]) for x in ms] else 'method-default-value', f'{cn}.{mn}', gm, ms))
     for expr, outcome in calls_out:
         if outcome.startswith('TypeError') and any(s in outcome for s in ('argument', 'positional', 'keyword', 'takes')):
             bad.append(('client-call', expr, outcome))
@@ -197,7 +208,7 @@ def shape_of(b, exp):
         return f"parents={len([p for p in ec['bases'] if p != 'object'])}:args={len(ec['ctor'])}:got={len(b[2]) if b[2] is not None else 'none'}"
     if kind in ('bases',):
         return f'want={len(b[3])}:got={len(b[2])}'
-    if kind in ('method-signature', 'function-signature'):
+    if kind in ('method-signature', 'function-signature', 'method-default-value', 'function-default-value'):
         return f'want={len(b[3])}:got={len(b[2])}'
     if kind == 'client-call':
         return 'ctor' if b[1][:1].isupper() else 'function'
